@@ -11,7 +11,7 @@ UDPNetworkClient / AsyncUDPNetworkClient over loopback UDP sockets (async ones o
 
 kind 0: any one-shot serializer (+ converter) as a black box.  `res` / `dgram` in the ops are what a FRESH protocol
         object (new serializer instance) makes of that single datagram / packet in isolation; the model
-        (coq/IO/Datagram.v, stateless by construction) answers every recv from that table alone, so any carry-over,
+        (coq/IO/DgramEndpoint.v, stateless by construction) answers every recv from that table alone, so any carry-over,
         merge, split, skipped or duplicated datagram in the real endpoint / protocol / serializer is a disagreement.
 kind 1/2: the one-shot interface DERIVED from the incremental one (AbstractIncrementalPacketSerializer.serialize /
         deserialize) over read_until / read_exactly test serializers; the model (coq/Frame/OneShot.v over the framers of
@@ -74,7 +74,7 @@ RULE = ("a case = up to 6 datagrams sent by the peer (valid serializations of ge
         "model; exhaustive part: every valid/malformed pattern of length <= 3 for the derived interface x 4 endpoint "
         "kinds. Non-trivial = a malformed datagram is followed by a valid one, two items are queued before a receive, a "
         "cancelled receive with data available, a socket error behind an unread datagram, or confusable / mutated sends.")
-TRUSTED = ["models coq/IO/Datagram.v and coq/Frame/OneShot.v hand-written from protocol.py, serializers/abc.py and the "
+TRUSTED = ["models coq/IO/DgramEndpoint.v and coq/Frame/OneShot.v hand-written from protocol.py, serializers/abc.py and the "
            "datagram endpoints; validated by execution",
            "kind 0: the serializer's own codec is not modelled; only its statelessness across datagrams through one "
            "protocol/endpoint object is checked (against a fresh instance per datagram)"]
